@@ -347,3 +347,5 @@ INFO = dict(
     outside=["byte strings longer than L", "alphabets outside the catalogue"],
     assumptions=["weights >= 0", "pivots > 0"],
 )
+
+INFO["technique"] = 'symbolic execution of to_cfg / to_bytes with z3 real weights against oracles; byte-level support decided by z3 for a symbolic byte string (sequence theory); bounded'
